@@ -19,7 +19,7 @@ import os
 import vlib
 
 ALL_CN = ("no", "sec", "half", "insec")
-KEEP = {"Cfg", "Msg", "Lookup", "SrvConn", "SrvData", "Ret", "End"}
+KEEP = {"Cfg", "Msg", "Quar", "Lookup", "SrvConn", "SrvData", "Ret", "End"}
 
 CFG = """SPECIFICATION %(spec)s
 CONSTANTS
@@ -90,7 +90,8 @@ def dedup(behs):
 
 def nontrivial(b):
     c = b["cfg"]
-    return bool(c["pols"]) and (any(m["reqtls"] or m["tlsno"] or m["quar"] for m in b["msgs"]) or
+    return bool(c["pols"]) and (any(m["reqtls"] or m["tlsno"] or m["quar"] or m.get("mailfail") or m.get("qlate")
+                                    for m in b["msgs"]) or
                                 any(f["stls"] != "offered" or f["cert"] != "valid" or
                                     f["tlsa"] not in ("insecure", "none") or f.get("cn", "no") != "no" for f in c["mx"]))
 
@@ -115,6 +116,9 @@ def run(ctx, replay):
                     ("mc2", cfg(nmx=(2,), mintls=(0, 2), minmx=(0, 1), override=("TRUE",), sts=("none", "enforce"),
                                 stlscert="QuickStlsCert", tlsa="QuickTlsa", maxmsgs=3, dnsfail=False,
                                 slow=("TRUE", "FALSE")))]
+        # per-message facts: MAIL refused with the session healthy, quarantined after RCPT x body path
+        runs.append(("mc-msg", cfg(nmx=(1,), stlscert="QuickStlsCert", tlsa="AllTlsa" if thorough else "QuickTlsa",
+                                   kinds="KindsAll", maxmsgs=3, dnsfail=False)))
         # TLSA discovery through a CNAME (RFC 7672 2.2.2): canonical name x original name outcomes
         runs.append(("mc-cname", cfg(polsets="DaneOnly", mintls=(0, 1, 2), minmx=(0,), override=("TRUE",),
                                      stlscert="QuickStlsCert", tlsa="AllTlsa" if thorough else "CnameTlsa", nmx=(1,),
@@ -157,7 +161,15 @@ def run(ctx, replay):
         behs = []
         # exhaustive: every history of 3 messages over the sub-space where the cache matters most
         focus = [("gen-local", cfg(polsets="LocalOnly", mintls=(1, 2), minmx=(0,), override=("TRUE",),
-                                   stlscert="QuickStlsCert", nmx=(1,), kinds="Kinds3", dnsfail=False,
+                                   stlscert="QuickStlsCert", nmx=(1,), kinds="KindsFocus", dnsfail=False,
+                                   gen=True, tail=GEN_TAIL)),
+                 # every certificate class x TLSA outcome under dane (DANE-EE ignores names, DANE-TA must not)
+                 ("gen-dane", cfg(polsets="DaneOnly", mintls=(0, 2), minmx=(0,), override=("TRUE",),
+                                  stlscert="AllStlsCert", tlsa="AllTlsa", nmx=(1,), kinds="Kinds1", maxmsgs=1,
+                                  dnsfail=False, gen=True, tail=GEN_TAIL)),
+                 # quarantined after RCPT x {Body, BodyNonAtomic}
+                 ("gen-lateq", cfg(polsets="LocalOnly", mintls=(0,), minmx=(0,), override=("TRUE",),
+                                   stlscert="TwoStlsCert", nmx=(1,), kinds="KindsQ", maxmsgs=2, dnsfail=False,
                                    gen=True, tail=GEN_TAIL)),
                  # every 1-message history over the sub-space where a late TLSA answer matters
                  ("gen-slow", cfg(polsets="DaneStsLocal", mintls=(0,), minmx=(1,), override=("TRUE",), sts=("testing",),
@@ -177,10 +189,10 @@ def run(ctx, replay):
         n1, n2 = (6000, 6000) if thorough else (450, 450)
         jobs = [(name, dict(workers=2, timeout=1800, cfg_text=text, heap="4g")) for name, text in focus]
         jobs += [("sim1", dict(workers=1, timeout=1800, simulate=n1, depth=60, heap="4g",
-                               cfg_text=cfg(nmx=(1,), kinds="Kinds5", tlsa="SmallTlsa", cn=ALL_CN, gen=True,
+                               cfg_text=cfg(nmx=(1,), kinds="KindsAll", tlsa="SmallTlsa", cn=ALL_CN, gen=True,
                                             tail=GEN_TAIL))),
                  ("sim1b", dict(workers=1, timeout=1800, simulate=n1 // 2, depth=60, heap="4g",
-                                cfg_text=cfg(nmx=(1,), kinds="Kinds5", gen=True, tail=GEN_TAIL))),
+                                cfg_text=cfg(nmx=(1,), kinds="KindsAll", gen=True, tail=GEN_TAIL))),
                  ("sim2", dict(workers=1, timeout=1800, simulate=n2, depth=60, heap="4g",
                                cfg_text=cfg(nmx=(2,), stlscert="SmallStlsCert", tlsa="SmallTlsa", kinds="Kinds4",
                                             dnsfail=False, slow=("TRUE", "FALSE"), gen=True, tail=GEN_TAIL)))]
